@@ -1,6 +1,6 @@
 PLAN['C16'] = dict(
     level='exploration',
-    units=std_units('C16', [('asan', 'sdcz', 3000, 50000), ('asan-i64', 'sdcz', 450, 5000)], chunk=100),
+    units=std_units('C16', [('asan', 'sdcz', 4500, 50000), ('asan-i64', 'sdcz', 675, 5000)], chunk=100),
     rule='seeded file writer = reference (values are strtod/strtof of the exact text printed, D exponent == E): '
          'Harwell-Boeing (FILE*) and Rutherford-Boeing (stdin) with types R/C x U/S/R, pointer/index formats (kIw) k=1..80/w, value formats '
          '(kEw.d) (kDw.d) (kFw.d) (kEw.dE3) (1PkEw.d) (1P,kEw.d) in either letter case, exponent letters E/D/e/d or mixed, 1..max fields per line, '
